@@ -182,95 +182,89 @@ func randItem(r *vf.Rng, d int) *Item {
 	return it
 }
 
-// mutateTree changes one or two places of a parsed valid encoding; the result
-// is written by enc, so header-level attacks are expressed through Mode.
+// one structural mutation: a name, the nodes it applies to, what it does
+type mutation struct {
+	name  string
+	ok    func(x *Item, root bool) bool
+	apply func(r *vf.Rng, x *Item)
+}
+
+func isStr(x *Item, root bool) bool  { return !x.IsList }
+func isList(x *Item, root bool) bool { return x.IsList }
+func anyNode(x *Item, root bool) bool { return true }
+func setMode(m int) func(r *vf.Rng, x *Item) {
+	return func(r *vf.Rng, x *Item) { x.Mode = m }
+}
+func payloadLen(x *Item) int {
+	if !x.IsList {
+		return len(x.B)
+	}
+	n := 0
+	for _, y := range x.L {
+		n += len(enc(y))
+	}
+	return n
+}
+
+var mutations = []mutation{
+	// header-level attacks on canonical form and on size fields
+	{"wrap-single-byte", func(x *Item, root bool) bool { return !x.IsList && len(x.B) == 1 && x.B[0] < 0x80 }, setMode(mWrapByte)},
+	{"long-form-below-56", func(x *Item, root bool) bool { return payloadLen(x) < 56 }, setMode(mLongForm)},
+	{"size-leading-zero", anyNode, setMode(mLeadZero)},
+	{"size-plus-one", anyNode, setMode(mLenPlus)},
+	{"size-minus-one", func(x *Item, root bool) bool { return payloadLen(x) > 0 }, setMode(mLenMinus)},
+	{"size-huge-8", anyNode, setMode(mHuge)},
+	{"size-huge-4", anyNode, setMode(mHuge4)},
+	{"kind-flip", anyNode, setMode(mKindFlip)},
+	// content of strings (integers, byte strings, arrays)
+	{"leading-zero", isStr, func(r *vf.Rng, x *Item) { x.B = append([]byte{0}, x.B...) }},
+	{"to-zero-byte", isStr, func(r *vf.Rng, x *Item) { x.B = []byte{0} }},
+	{"to-single-byte", isStr, func(r *vf.Rng, x *Item) { x.B = []byte{byte(2 + r.Intn(254))} }},
+	{"to-last-byte", func(x *Item, root bool) bool { return !x.IsList && len(x.B) > 1 }, func(r *vf.Rng, x *Item) { x.B = []byte{x.B[len(x.B)-1]} }},
+	{"same-len-bytes", func(x *Item, root bool) bool { return !x.IsList && len(x.B) > 0 }, func(r *vf.Rng, x *Item) { x.B = r.Bytes(len(x.B)) }},
+	{"longer-bytes", isStr, func(r *vf.Rng, x *Item) { x.B = append(x.B, r.Bytes(1+r.Intn(3))...) }},
+	{"nine-bytes", isStr, func(r *vf.Rng, x *Item) { x.B = append([]byte{1}, r.Bytes(8)...) }},
+	{"shorter-bytes", func(x *Item, root bool) bool { return !x.IsList && len(x.B) > 0 }, func(r *vf.Rng, x *Item) { x.B = x.B[:len(x.B)-1] }},
+	{"bit-flip", func(x *Item, root bool) bool { return !x.IsList && len(x.B) > 0 }, func(r *vf.Rng, x *Item) { x.B[r.Intn(len(x.B))] ^= 1 << uint(r.Intn(8)) }},
+	// empty values of either kind (nil pointers), kind changes
+	{"to-empty-string", func(x *Item, root bool) bool { return !root }, func(r *vf.Rng, x *Item) { *x = Item{B: []byte{}} }},
+	{"to-empty-list", func(x *Item, root bool) bool { return !root }, func(r *vf.Rng, x *Item) { *x = Item{IsList: true} }},
+	{"wrap-in-list", isStr, func(r *vf.Rng, x *Item) { *x = Item{IsList: true, L: []*Item{{B: x.B}}} }},
+	{"unwrap-list", func(x *Item, root bool) bool { return x.IsList && len(x.L) == 1 }, func(r *vf.Rng, x *Item) { *x = *x.L[0] }},
+	// list structure
+	{"drop-elem", func(x *Item, root bool) bool { return x.IsList && len(x.L) > 0 }, func(r *vf.Rng, x *Item) {
+		i := r.Intn(len(x.L))
+		x.L = append(append([]*Item{}, x.L[:i]...), x.L[i+1:]...)
+	}},
+	{"dup-elem", func(x *Item, root bool) bool { return x.IsList && len(x.L) > 0 }, func(r *vf.Rng, x *Item) { x.L = append(x.L, x.L[r.Intn(len(x.L))]) }},
+	{"swap-elems", func(x *Item, root bool) bool { return x.IsList && len(x.L) > 1 }, func(r *vf.Rng, x *Item) {
+		i := r.Intn(len(x.L))
+		j := (i + 1 + r.Intn(len(x.L)-1)) % len(x.L)
+		x.L[i], x.L[j] = x.L[j], x.L[i]
+	}},
+	{"extra-first", isList, func(r *vf.Rng, x *Item) { x.L = append([]*Item{{B: []byte{}}}, x.L...) }},
+	{"extra-last", isList, func(r *vf.Rng, x *Item) { x.L = append(x.L, &Item{B: []byte{byte(r.Intn(256))}}) }},
+}
+
+// mutateTree changes one place of a parsed valid encoding: a mutation is
+// drawn first, then a node it applies to; the result is written by enc, so
+// header-level attacks are expressed through Mode.
 func mutateTree(r *vf.Rng, root *Item) string {
 	var ns []*Item
 	nodes(root, &ns)
-	x := ns[r.Intn(len(ns))]
-	switch r.Intn(16) {
-	case 0:
-		x.Mode = 1 + r.Intn(nModes-1)
-		return "header-mode"
-	case 1:
-		if !x.IsList {
-			x.B = append([]byte{0}, x.B...)
-			return "leading-zero"
+	for try := 0; try < 6; try++ {
+		m := mutations[r.Intn(len(mutations))]
+		var cand []*Item
+		for i, x := range ns {
+			if m.ok(x, i == 0) {
+				cand = append(cand, x)
+			}
 		}
-		x.L = append([]*Item{{B: []byte{}}}, x.L...)
-		return "extra-first"
-	case 2:
-		*x = Item{B: []byte{}}
-		return "to-empty-string"
-	case 3:
-		*x = Item{IsList: true}
-		return "to-empty-list"
-	case 4:
-		if !x.IsList {
-			x.B = []byte{byte(2 + r.Intn(254))}
-			return "to-single-byte"
+		if len(cand) == 0 {
+			continue
 		}
-		x.L = append(x.L, &Item{B: []byte{byte(r.Intn(256))}})
-		return "extra-last"
-	case 5:
-		if x.IsList && len(x.L) > 0 {
-			i := r.Intn(len(x.L))
-			x.L = append(x.L[:i], x.L[i+1:]...)
-			return "drop-elem"
-		}
-		x.B = r.Bytes(len(x.B))
-		return "same-len-bytes"
-	case 6:
-		if x.IsList && len(x.L) > 1 {
-			i, j := r.Intn(len(x.L)), r.Intn(len(x.L))
-			x.L[i], x.L[j] = x.L[j], x.L[i]
-			return "swap-elems"
-		}
-		if !x.IsList {
-			x.B = r.Bytes(len(x.B) + 1 + r.Intn(3))
-			return "longer-bytes"
-		}
-		return "none"
-	case 7:
-		if x.IsList && len(x.L) > 0 {
-			i := r.Intn(len(x.L))
-			x.L = append(x.L, x.L[i])
-			return "dup-elem"
-		}
-		if len(x.B) > 0 {
-			x.B = x.B[:len(x.B)-1]
-			return "shorter-bytes"
-		}
-		return "none"
-	case 8:
-		if !x.IsList {
-			x.B = []byte{0}
-			return "to-zero-byte"
-		}
-		return "none"
-	case 9:
-		if !x.IsList && len(x.B) > 0 {
-			x.B[r.Intn(len(x.B))] ^= 1 << uint(r.Intn(8))
-			return "bit-flip"
-		}
-		return "none"
-	case 10:
-		if !x.IsList {
-			*x = Item{IsList: true, L: []*Item{{B: x.B}}}
-			return "wrap-in-list"
-		}
-		if len(x.L) == 1 {
-			*x = *x.L[0]
-			return "unwrap-list"
-		}
-		return "none"
-	case 11:
-		if !x.IsList && len(x.B) > 1 {
-			x.B = []byte{x.B[len(x.B)-1]}
-			return "to-last-byte"
-		}
-		return "none"
-	default:
-		return "none" // keep the valid encoding
+		m.apply(r, cand[r.Intn(len(cand))])
+		return m.name
 	}
+	return "none"
 }
